@@ -324,3 +324,14 @@
     pub open spec fn simple_ok(n: Node, p: SimpleProps) -> bool {
         forall|r: Node| first_restriction(n, r) ==> p.restrictions is Some && facets_of(r, p.restrictions->0) && attr(n, "name"@) == Some(p.xml_name@)
     }
+//# section: element-spec
+    // C02: a global element with a type attribute is an alias of that type; an anonymous-typed global element carries the members of its complexType child
+    pub open spec fn first_ct(n: Node, c: Node) -> bool {
+        exists|i: int| 0 <= i < elem_kids(n).len() && #[trigger] elem_kids(n)[i] == c && tag(c) == "complexType"@
+            && forall|j: int| 0 <= j < i ==> tag(#[trigger] elem_kids(n)[j]) != "complexType"@
+    }
+    pub open spec fn element_ok(n: Node, p: ElementProps) -> bool {
+        &&& attr(n, "name"@) == Some(p.xml_name@)
+        &&& (attr(n, "type"@) is Some ==> p.element_type is RustType)
+        &&& (attr(n, "type"@) is None ==> forall|c: Node| first_ct(n, c) ==> p.element_type is ComplexType && ct_ok(c, p.element_type->ComplexType_0.fields@))
+    }
